@@ -26,6 +26,15 @@ def model_check(cfgs, workers=14, timeout=1500, coverage=False):
     return states, trans, notes
 
 
+def guards(cfgs, want="StopFinal"):
+    """Configurations with a design switch off: the model must violate `want` (vacuity guards)."""
+    for c in cfgs:
+        r = vlib.tlc("Reactive_MC", "Reactive_MC_%s.cfg" % c, workers=4, timeout=600)
+        if r.ok or r.invariant != want:
+            raise Inconclusive("vacuity guard Reactive_MC_%s: expected %s to be violated, got %s" % (c, want, r.invariant))
+    return ["guard %s: %s violated as expected" % (c, want) for c in cfgs]
+
+
 def simulate(cfgs, num, depth, seed, timeout=900):
     states = 0
     notes = []
